@@ -52,6 +52,17 @@ def stmt(z, rng):
                 add("no_data_zero", f"drxs_vec(Z={z}, E={E!r}, fwhm={w!r}) is not identically zero although the package ships no DR data for Z={z} (max {v.max()!r})", {"E": E, "w": w})
                 break
         return out
+    # the resonances the element carries are the tabulated ones (data file read here by an independent csv reader)
+    import csv
+    with open(os.path.join(os.path.dirname(ebisim.__file__), "resources", "drdata", f"DR_{z}.csv"), newline="") as f:
+        tab = [(int(r_["CHARGE_STATE"]), float(r_["DELTA_E_AI"]), float(r_["RECOMB_STRENGTH"])) for r_ in csv.DictReader(f)
+               if any((v_ or "").strip() for v_ in r_.values())]
+    have = list(zip((int(c) for c in el.dr_cs), (float(e) for e in el.dr_e_res), (float(x) for x in el.dr_strength)))
+    if sorted(tab) != sorted(have):
+        miss = sorted(set(tab) - set(have)); extra = sorted(set(have) - set(tab))
+        add("tabulated_resonances", f"Element.get({z}) carries {len(have)} resonances, DR_{z}.csv tabulates {len(tab)}; "
+            f"missing {miss[:2]}, not in the file {extra[:2]}", {})
+        return out
     if el.dr_cs.min() < 1 or el.dr_cs.max() > z or (el.dr_strength < 0).any() or (el.dr_e_res <= 0).any():
         add("table_range", f"DR table of Z={z} has a charge state outside 1..Z, a negative strength or a non-positive energy", {})
     E = float(rng.choice(el.dr_e_res) + rng.normal() * w)
